@@ -11,7 +11,7 @@ import os
 import re
 from mir2smt.ob import *
 from mir2smt import terms as T
-from mir2smt.exec import OpaqueV, IntV, BoolV, AggV, EnumV, RefV, UNIT, Stop, mk_option, mk_result
+from mir2smt.exec import OpaqueV, IntV, BoolV, AggV, EnumV, RefV, ListV, UNIT, Stop, mk_option, mk_result
 from mir2smt import envlib as E
 from mir2smt.builtins import deref
 from mir2smt.srcinfo import field_index
@@ -303,3 +303,134 @@ DESIGN_REF = "DESIGN.md section 4 (C01)"
 BOUNDS = dict(BOUNDS, m2="need_clean: all u64 epochs (no bound)", m3="find_fork: five concrete fork shapes (new tip 2 above .. 2 below the current tip, fork depth 2), every split of already-verified / unverified blocks on the new branch")
 LEVEL_TEXT = LEVEL_TEXT + " Also decided: the orphan retention horizon (need_clean: a held group expires exactly when its first block's epoch + EXPIRED_EPOCH is strictly below the tip epoch) and find_fork on small concrete fork shapes (attached/detached blocks in ascending order, dirty exts paired block by block with the unverified tail)."
 LEVEL_NOTE = "Partial claim (decision step of verify_block, orphan expiry predicate, find_fork on bounded shapes). Orphan broker, ordering, threads, DB transaction: outside."
+
+
+def m4_orphan_broker_decisions(S):
+    """`OrphanBroker::process_lonely_block` and `search_orphan_leader` (chain/src/orphan_broker.rs) -- what happens to a stored-but-unverified block and to the blocks waiting for
+    a parent: a block whose parent is stored or already queued for verification is queued for verification itself (marked pending BEFORE it is sent); a block whose parent is invalid is
+    deleted, marked invalid and reported to its submitter; any other block is held in the orphan pool; afterwards EVERY leader of the pool is re-examined: the descendants of a
+    leader that became invalid are all deleted and marked invalid, the descendants of a leader that is stored or pending are all released into verification in the order the pool
+    returned them (parents first), and a leader that is still unknown keeps its descendants held"""
+    ob = "C01.m4"
+    imp = "chain/src/orphan_broker.rs"
+    one = lambda short: _one(S, lambda x: x.short == short and imp in x.name and "{closure" not in x.name, "OrphanBroker::" + short)
+    f_lonely, f_leader = one("process_lonely_block"), one("search_orphan_leader")
+
+    def env(ctx, leaders, desc):
+        def nmv(ex, v):
+            v = deref(ex, v)
+            return getattr(v, "name", None) or type(v).__name__
+
+        def who(ex, v):
+            return re.sub(r"\..*$", "", nmv(ex, v))
+
+        def rec(tag, ret=None):
+            def h(ex, c, a, d):
+                ex.log.append(("c01", tag, [who(ex, x) for x in a[1:]], list(ex.pc)))
+                return ret(ex, a, d) if ret else UNIT
+            return h
+
+        def status(ex, c, a, d):
+            return OpaqueV("status_of_" + who(ex, a[1]), d)
+
+        def st_contains(ex, c, a, d):
+            return ex.ctx.bool("stored_" + who(ex, a[0]).replace("status_of_", ""))
+
+        def st_eq(ex, c, a, d):
+            return ex.ctx.bool("invalid_" + who(ex, a[0]).replace("status_of_", ""))
+        return list(E.LOGGING_OFF) + [
+            (E.rx(r"LonelyBlockHash::parent_hash$"), lambda ex, c, a, d: OpaqueV("parent_of_" + who(ex, a[0]), d)),
+            (E.rx(r"LonelyBlockHash::(hash|number)$|BlockNumberAndHash::(hash|number)$"), lambda ex, c, a, d: OpaqueV(who(ex, a[0]), d) if c.endswith("hash") else ex.ctx.int("number_" + who(ex, a[0]), "u64")),
+            (E.rx(r"DashSet::<.*>::contains(::<.*>)?$"), lambda ex, c, a, d: ex.ctx.bool("pending_" + who(ex, a[1]))),
+            (E.rx(r"DashSet::<.*>::insert$"), rec("mark_pending", lambda ex, a, d: BoolV(True))),
+            (E.rx(r"Shared::get_block_status$"), status),
+            (E.rx(r"BlockStatus>?::contains$"), st_contains),
+            (E.rx(r"<BlockStatus as PartialEq>::eq$"), st_eq),
+            (E.rx(r"OrphanBlockPool::insert$"), rec("hold")),
+            (E.rx(r"OrphanBlockPool::clone_leaders$"), lambda ex, c, a, d: ListV(tuple(OpaqueV(l_, "Byte32") for l_ in leaders), "Vec<Byte32>")),
+            (E.rx(r"OrphanBlockPool::remove_blocks_by_parent$"), lambda ex, c, a, d: (ex.log.append(("c01", "release", [who(ex, a[1])], list(ex.pc))), ListV(tuple(OpaqueV(x_, "LonelyBlockHash") for x_ in desc.get(who(ex, a[1]), [])), "Vec<LonelyBlockHash>"))[1]),
+            (E.rx(r"OrphanBlockPool::len$"), lambda ex, c, a, d: IntV(0, "usize")),
+            (E.rx(r"Sender::<LonelyBlockHash>::send$"), rec("send", lambda ex, a, d: mk_result(ex.ctx.bool("channel_open").t, UNIT, OpaqueV("send_err", "SendError"), d))),
+            (E.rx(r"Sender::<LonelyBlockHash>::len$"), lambda ex, c, a, d: IntV(0, "usize")),
+            (E.rx(r"(^|::)delete_unverified_block(::<.*>)?$"), rec("delete")),
+            (E.rx(r"Shared::insert_block_status$"), rec("mark_status")),
+            (E.rx(r"LonelyBlockHash::execute_callback$"), lambda ex, c, a, d: (ex.log.append(("c01", "callback", [who(ex, a[0])], list(ex.pc))), UNIT)[1]),
+            (E.rx(r"Shared::(store|snapshot|set_unverified_tip)$|Snapshot::tip_number$|HeaderIndex::new$|InternalErrorKind::other|as From<.*>>::from$|as Into<.*>>::into$|^format$|must_use"), E.opaque_call()),
+            (E.rx(r"as Deref>::deref$|as Clone>::clone$"), lambda ex, c, a, d: (OpaqueV(nmv(ex, a[0]), d) if isinstance(deref(ex, a[0]), OpaqueV) else deref(ex, a[0]))),
+            (E.rx(r"<u64 as PartialOrd>::gt$"), lambda ex, c, a, d: ex.ctx.bool("above_tip")),
+        ] + list(E.LIST_ADAPTORS)
+    me = lambda ctx: ctx.ref_to(OpaqueV("broker", "OrphanBroker"))
+    # ---------------- a block arrives
+    ctx = S.ctx(unwind=10)
+    ctx.uninterpreted_unknown_calls = True
+    ctx.max_paths = 4000
+    ctx.env = env(ctx, ["L0"], {"L0": ["w0", "w1"]})
+    ps = S.run(ctx, f_lonely, [me(ctx), OpaqueV("blk", "LonelyBlockHash")])
+    S.prove(ctx, ob, "arrival_no_panic", [], T.not_(cond_of(panics(ps))))
+    b = lambda n_: ctx.bool(n_).t
+    P_pending, P_stored, P_invalid = b("pending_parent_of_blk"), b("stored_parent_of_blk"), b("invalid_parent_of_blk")
+    rs = returns(ps)
+
+    def when(pred):
+        return T.or_(*[p.cond() for p in rs if pred([(e[1], e[2]) for e in p.log if e[0] == "c01"])])
+    has = lambda tag, x: (lambda evs: (tag, x) in [(t, (a_[0] if a_ else None)) for t, a_ in evs])
+    direct = T.or_(P_pending, P_stored)
+    S.prove(ctx, ob, "arrival_block_is_queued_for_verification_iff_parent_stored_or_pending", [], T.iff(when(has("send", "blk")), direct))
+    S.prove(ctx, ob, "arrival_block_is_invalidated_iff_parent_invalid_and_not_stored_or_pending", [], T.iff(when(lambda evs: ("delete", "blk") in [(t, a_[-1] if a_ else None) for t, a_ in evs] or any(t == "delete" and "blk" in a_ for t, a_ in evs)), T.and_(T.not_(direct), P_invalid)))
+    S.prove(ctx, ob, "arrival_block_is_held_otherwise", [], T.iff(when(has("hold", "blk")), T.and_(T.not_(direct), T.not_(P_invalid))))
+    ok_order, ok_leaders = [], []
+    for p in rs:
+        evs = [(e[1], e[2]) for e in p.log if e[0] == "c01"]
+        tags = [(t, a_[0] if a_ else None) for t, a_ in evs]
+        if ("send", "blk") in tags:
+            ok_order.append(T.implies(p.cond(), bool(("mark_pending", "blk") in tags and tags.index(("mark_pending", "blk")) < tags.index(("send", "blk")))))
+        # the leaders are re-examined on every path: the status of L0 is looked at (its flags appear in the path condition) or it is released
+        pcs = " ".join(str(c_) for c_ in p.pc)
+        ok_leaders.append(T.implies(p.cond(), bool("L0" in pcs)))
+    S.prove(ctx, ob, "arrival_block_is_marked_pending_before_it_is_sent", [], T.and_(*ok_order) if ok_order else False)
+    S.prove(ctx, ob, "arrival_every_leader_is_re_examined_whatever_happened_to_the_block", [], T.and_(*ok_leaders) if ok_leaders else False)
+    # ---------------- one leader is examined
+    ctx = S.ctx(unwind=10)
+    ctx.uninterpreted_unknown_calls = True
+    ctx.env = env(ctx, [], {"L0": ["w0", "w1"]})
+    ps = S.run(ctx, f_leader, [me(ctx), OpaqueV("L0", "Byte32")])
+    S.prove(ctx, ob, "leader_no_panic", [], T.not_(cond_of(panics(ps))))
+    b = lambda n_: ctx.bool(n_).t
+    L_pending, L_stored, L_invalid = b("pending_L0"), b("stored_L0"), b("invalid_L0")
+    kept, invalidated, released, bad = [], [], [], []
+    for p in returns(ps):
+        evs = [(e[1], e[2]) for e in p.log if e[0] == "c01"]
+        sends = [a_[0] for t, a_ in evs if t == "send"]
+        dels = [a_ for t, a_ in evs if t == "delete"]
+        marks = [a_[0] for t, a_ in evs if t == "mark_status"]
+        cbs = [a_[0] for t, a_ in evs if t == "callback"]
+        rel = [a_[0] for t, a_ in evs if t == "release"]
+        pend = [a_[0] for t, a_ in evs if t == "mark_pending"]
+        if not rel and not sends and not dels and not marks and not pend:
+            kept.append(p.cond())
+        elif rel == ["L0"] and not sends and not pend and len(dels) == 2 and marks == ["w0", "w1"] and cbs == ["w0", "w1"]:
+            invalidated.append(p.cond())
+        elif rel == ["L0"] and sends == ["w0", "w1"] and pend == ["w0", "w1"] and not dels and not marks:
+            released.append(p.cond())
+        else:
+            bad.append(p.cond())
+    orr = lambda xs: T.or_(*xs) if xs else False
+    S.prove(ctx, ob, "leader_every_outcome_is_one_of_kept_invalidated_released_in_order", [], T.not_(orr(bad)))
+    S.prove(ctx, ob, "leader_invalid_iff_all_descendants_are_deleted_marked_invalid_and_reported", [], T.iff(orr(invalidated), L_invalid))
+    S.prove(ctx, ob, "leader_stored_or_pending_iff_all_descendants_are_released_into_verification_parents_first", [], T.iff(orr(released), T.and_(T.not_(L_invalid), T.or_(L_pending, L_stored))))
+    S.prove(ctx, ob, "leader_unknown_iff_descendants_stay_held", [], T.iff(orr(kept), T.and_(T.not_(L_invalid), T.not_(L_pending), T.not_(L_stored))))
+    S.prove(ctx, ob, "leader_every_status_combination_is_explored", [], bool(len(returns(ps)) >= 4))
+
+
+def _one(S, pred, what):
+    f = [x for x in S.prog.funcs if x.kind == "fn" and pred(x)]
+    if len(f) != 1:
+        raise Inconclusive(f"{what}: {len(f)} candidates")
+    return f[0]
+
+
+OBLIGATIONS = OBLIGATIONS + [m4_orphan_broker_decisions]
+
+# ---- extended claim (session 4)
+LEVEL_TEXT = LEVEL_TEXT + ' m4: the orphan broker queues a block for verification iff its parent is stored or pending, invalidates it iff the parent is invalid, holds it otherwise, and re-examines every pool leader after each arrival (descendants of a stored/pending leader are released parents first, of an invalid leader invalidated, of an unknown leader kept).'
+LEVEL_NOTE = LEVEL_NOTE + ' Orphan broker: decision step with the pool, status table and channel as environment.'
